@@ -19,10 +19,12 @@
    per value: DeepEqual pairs / Copy / CopyTo's source as grouped and pure cases; Reset and CopyTo's
    destination by value (demand: must-be-pointer error, nothing changed) and through *T / **T;
    per unit: every operation with a foreign argument (demand: one of the refusals the signature can
-   express, arguments unchanged) and with the nil forms (typed nil *T, **T to nil, nil **T, nil). *)
+   express, arguments unchanged) and with the nil forms (typed nil *T, **T to nil, nil **T, nil);
+   per value with a non-empty collection: two histories of reads sharing one key buffer (ops seqf / seq,
+   see "histories of reads" below). *)
 From Coq Require Import List Bool String Ascii ZArith Arith.
 From Verif Require Import Util Ints Strconv Floats Node GoSrc Value Outcome Nav LC LCSpec Get GetSpec Cmp CmpSpec
-  Loop LoopSpec Deq DeqSpec InsReset InsCopy EmptySpec FormsSpec Api Shapes EnumVal GenUnits
+  Loop LoopSpec Deq DeqSpec InsReset InsCopy EmptySpec FormsSpec Api ApiSeq Shapes EnumVal GenUnits
   GenC10 GenC01 GenC04 GenC09 GenDeq GenC08 GenC06.
 Import ListNotations.
 Local Open Scope string_scope.
@@ -198,6 +200,240 @@ Definition pure_line (u id tags form value spec : string) (is : list inner) : st
   line (id ++ ".P" ++ form) ("pure,f:" ++ form ++ "," ++ tags) (u ++ ";" ++ form ++ ";pure;" ++ seps "|" (map i_text is) ++ ";" ++ value)
        (pure_model form is) spec.
 
+(* ---------- histories of reads: one object, one caller-owned key buffer (harness/emit/op_seq.go) ----------
+   input   <Type>;all;seqf;<step>|<step>|...;<value>      grouped: the history in the forms T, *T, **T and every step alone
+           <Type>;<form>;seq;<step>|<step>|...;<value>    the history once, in the form of the case
+     step = loop;<canon>;<wants>;<ctls>;<path>        Loop over the object          (store object 0)
+            oloop;<canon>;<wants>;<ctls>;<path>       Loop over a second object of the same type and value  (store object 1)
+            xloop;<Type2>;<value2>;<canon>;<wants>;<ctls>;<path>   Loop over a partner object of another unit (store object 2..)
+            get;<path>  getto;<path>                  on the object
+     ONE key buffer is handed to every Loop of a history.
+   observation
+     seqf   alone=<v><p><pp>.<v><p><pp>...;same=<v><p><pp>.<v><p><pp>...    per step
+     seq    <step observation>#<step observation>...;same=<bit per step>
+   The model column is Model/ApiSeq.run on the store of the history; the demand is FormsSpec.history_demand:
+   no step changes any object, so every step answers what it answers alone, in every form. *)
+Record hstep := HStep { hs_tag : string; hs_text : string; hs_step : ApiSeq.step; hs_pr : option answer -> string }.
+
+Definition pr_loop_ans (d : ldemand) (a : option answer) : string :=
+  match a with
+  | Some (AnsTrace (Panic k)) => "PANIC:" ++ pr_pkind k
+  | Some (AnsTrace (Ret tr e)) =>
+    if has_unk tr then "?" else "e=" ++ pr_err e ++ ";" ++ pr_trace (sorted_of d) (abstract (kabs_of d) tr) []
+  | _ => "?"
+  end.
+
+Definition pr_get_ans (n : node) (v : val) (path : list string) (a : option answer) : string :=
+  match a with Some (AnsRef o) => GenC01.pr_out n (elem_loc n v path) o | _ => "?" end.
+
+(* how the keys of a collection are rendered into the key buffer *)
+Definition key_class (d : ldemand) : string :=
+  match d with
+  | LSlice _ _ => "slice"
+  | LMap kn _ _ =>
+    match node_skind kn with
+    | Some SString => "string"
+    | Some (SInt i) => if is_signed i then "int" else "uint"
+    | Some SByte => "uint"
+    | Some (SF32 | SF64) => "float"
+    | Some SBool => "bool"
+    | None => "other"
+    end
+  | _ => "none"
+  end.
+
+(* keys wanted in every round; no Break (the rounds of a full iteration in every step) *)
+Definition loop_step (kw : string) (obj : nat) (n : node) (v : val) (c : string) (path : list string) : hstep :=
+  let d := loop_demand n v path in
+  HStep ("k:" ++ key_class d) (kw ++ ";" ++ canon_of d ++ ";1;" ++ c ++ ";" ++ path_text path)
+        (obj, KLoop (script_of "1" c) id_ord path) (pr_loop_ans d).
+
+Definition get_step (to : bool) (n : node) (v : val) (path : list string) : hstep :=
+  if to then HStep "getto" ("getto;" ++ path_text path) (0%nat, KGetTo path (Some sentinel)) (pr_get_ans n v path)
+  else HStep "get" ("get;" ++ path_text path) (0%nat, KGet path) (pr_get_ans n v path).
+
+Definition end_paths (n : node) (v : val) : list (list string) :=
+  map fst (filter (fun pt : tagged => String.eqb (snd pt) "end") (paths n v)).
+Definition coll_paths (n : node) (v : val) : list (list string) :=
+  filter (fun p => is_coll (loop_demand n v p)) (end_paths n v).
+Definition live_path (n : node) (v : val) (p : list string) : bool := Nat.ltb 0 (demand_len (loop_demand n v p)).
+
+Fixpoint strict_prefix (a b : list string) : bool :=
+  match a, b with
+  | [], _ :: _ => true
+  | x :: r, y :: r' => String.eqb x y && strict_prefix r r'
+  | _, _ => false
+  end.
+Definition elem_paths (ends cs : list (list string)) : list (list string) :=
+  filter (fun p => existsb (fun c => strict_prefix c p) cs) ends.
+
+Definition rot {A} (k : nat) (l : list A) : list A :=
+  let j := Nat.modulo k (List.length l) in (skipn j l ++ firstn j l)%list.
+
+(* a partner object: unit, node, value, a path that denotes a non-empty collection of it *)
+Definition partner := (string * node * val * list string)%type.
+
+(* the first unit with a non-empty collection of the class, in its least populated such value *)
+Definition partner_in (cls : string) (u : string * ty) : list partner :=
+  let n := root_node u in
+  take 1 (flat_map (fun v =>
+            map (fun p => (fst u, n, v, p))
+                (filter (fun p => String.eqb (key_class (loop_demand n v p)) cls && live_path n v p) (coll_paths n v)))
+          (variants n)).
+Fixpoint find_partner (cls : string) (us : list (string * ty)) : list partner :=
+  match us with
+  | [] => []
+  | u :: r => match partner_in cls u with [] => find_partner cls r | l => l end
+  end.
+
+(* one partner per way of rendering a key that is not a copy of a string: index, signed, unsigned, float *)
+Definition partners_of (us : list (string * ty)) : list partner :=
+  flat_map (fun cls => find_partner cls us) ["slice"; "int"; "uint"; "float"].
+
+Definition partner_step (j : nat) (pa : partner) : hstep :=
+  let '(u2, n2, v2, p2) := pa in
+  loop_step ("xloop;" ++ u2 ++ ";" ++ pr_val true v2) (2 + j) n2 v2 "" p2.
+
+(* the store of a history: the object, the second object, the partners (handed over by pointer) *)
+Definition hist_store (n : node) (v : val) (form : string) (pas : list partner) : ApiSeq.store :=
+  ((n, arg_of_form form v) :: (n, arg_of_form form v) ::
+   map (fun pa : partner => let '(_, n2, v2, _) := pa in (n2, APtr (Some v2))) pas)%list.
+
+(* the same tree, floats compared by representation (Value.val_eqb prints them): an argument nothing was stored
+   into is the same tree *)
+Definition float_same (x y : Floats.SpecFloat.spec_float) : bool :=
+  match x, y with
+  | Floats.SpecFloat.S754_zero a, Floats.SpecFloat.S754_zero b => Bool.eqb a b
+  | Floats.SpecFloat.S754_infinity a, Floats.SpecFloat.S754_infinity b => Bool.eqb a b
+  | Floats.SpecFloat.S754_nan, Floats.SpecFloat.S754_nan => true
+  | Floats.SpecFloat.S754_finite a m e, Floats.SpecFloat.S754_finite b m' e' => Bool.eqb a b && Pos.eqb m m' && Z.eqb e e'
+  | _, _ => false
+  end.
+Fixpoint val_same (a b : val) {struct a} : bool :=
+  match a, b with
+  | VFloat x, VFloat y => float_same x y
+  | VStruct fs, VStruct gs =>
+    (fix go (l l' : list val) : bool :=
+       match l, l' with [], [] => true | x :: r, y :: r' => val_same x y && go r r' | _, _ => false end) fs gs
+  | VSlice n es e, VSlice n' es' e' =>
+    Bool.eqb n n' && Nat.eqb e e' &&
+    (fix go (l l' : list val) : bool :=
+       match l, l' with [], [] => true | x :: r, y :: r' => val_same x y && go r r' | _, _ => false end) es es'
+  | VMap n kvs, VMap n' kvs' =>
+    Bool.eqb n n' &&
+    (fix go (l l' : list (val * val)) : bool :=
+       match l, l' with
+       | [], [] => true
+       | (k, x) :: r, (k', y) :: r' => val_same k k' && val_same x y && go r r'
+       | _, _ => false
+       end) kvs kvs'
+  | VPtr (Some x), VPtr (Some y) => val_same x y
+  | _, _ => val_eqb a b
+  end.
+
+Definition arg_eqb (a b : arg) : bool :=
+  match a, b with
+  | AVal x, AVal y => val_same x y
+  | APtr (Some x), APtr (Some y) => val_same x y
+  | APtr None, APtr None => true
+  | APtrPtr (Some (Some x)), APtrPtr (Some (Some y)) => val_same x y
+  | APtrPtr (Some None), APtrPtr (Some None) => true
+  | APtrPtr None, APtrPtr None => true
+  | ANil, ANil => true
+  | AForeign, AForeign => true
+  | _, _ => false
+  end.
+Fixpoint store_eqb (a b : ApiSeq.store) : bool :=
+  match a, b with
+  | [], [] => true
+  | x :: r, y :: r' => arg_eqb (snd x) (snd y) && store_eqb r r'
+  | _, _ => false
+  end.
+
+(* per step: the answer inside the history, and whether every object is as it was *)
+Definition hist_run (s : ApiSeq.store) (hs : list hstep) : list (string * bool) :=
+  map (fun x : hstep * (option answer * ApiSeq.store) => (hs_pr (fst x) (fst (snd x)), store_eqb (snd (snd x)) s))
+      (combine hs (ApiSeq.run s (map hs_step hs))).
+
+Definition seq_model (r : list (string * bool)) : string :=
+  if existsb (fun x => String.eqb (fst x) "?") r then "?"
+  else seps "#" (map fst r) ++ ";same=" ++ String.concat "" (map (fun x => bit (snd x)) r).
+
+(* [per]: the runs of the history by value, by pointer, by pointer-to-pointer *)
+Definition seqf_model (sp : ApiSeq.store) (per : list (list (string * bool))) (hs : list hstep) : string :=
+  let al := map (fun h => strip_live (hs_pr h (ApiSeq.alone sp (hs_step h)))) hs in
+  let col (i : nat) (g : string * bool -> string -> bool) : string :=
+    String.concat "" (map (fun r => bit (g (nth i r ("?", false)) (nth i al "?"))) per) in
+  "alone=" ++ seps "." (map (fun i => col i (fun x a => String.eqb (strip_live (fst x)) a)) (seqn (List.length hs))) ++
+  ";same=" ++ seps "." (map (fun i => col i (fun x _ => snd x)) (seqn (List.length hs))).
+
+(* H1: every collection of the object forwards and backwards (each kind of key rendering is followed by each
+   neighbouring other one in one of the two directions), then a Get and a GetTo into the collections *)
+Definition history_same (sel : nat) (n : node) (v : val) (ends colls : list (list string)) : list hstep :=
+  let cs := take 6 (rot sel colls) in
+  let order := match cs with [c] => [c; c] | _ => (cs ++ tl (rev cs))%list end in
+  let eps := elem_paths ends cs in
+  (map (fun ic : nat * list string => loop_step "loop" 0 n v (if Nat.even (sel + fst ic) then "" else "C") (snd ic))
+       (combine (seqn (List.length order)) order) ++
+   match eps with
+   | [] => []
+   | e :: _ => [get_step false n v e; get_step true n v (last eps e)]
+   end)%list.
+
+(* H2: a Loop over the object, a Loop over ANOTHER object (a partner of another type, or a second object of the same
+   type), the first Loop again - for up to three collections of the object *)
+Definition history_other (sel : nat) (n : node) (v : val) (ends colls : list (list string)) (pas : list partner) : list hstep :=
+  let cs := take 3 (rot (S sel) colls) in
+  let eps := elem_paths ends cs in
+  (flat_map (fun jc : nat * list string =>
+     let '(j, c) := jc in
+     let k := Nat.modulo (sel + j) (S (List.length pas)) in
+     let x := match nth_error pas k with
+              | Some pa => partner_step k pa
+              | None => loop_step "oloop" 1 n v "" (last cs c)
+              end in
+     [loop_step "loop" 0 n v "" c; x; loop_step "loop" 0 n v "C" c])
+     (combine (seqn (List.length cs)) cs) ++
+   match eps with [] => [] | e :: _ => [get_step false n v e] end)%list.
+
+Definition hist_lines (u : string) (n : node) (pas : list partner) (vi : nat) (v : val) : list string :=
+  let ends := end_paths n v in
+  let colls := filter (fun p => is_coll (loop_demand n v p)) ends in
+  if negb (existsb (live_path n v) colls) then [] else
+  let value := pr_val true v in
+  let mk (name : string) (sel : nat) (hs : list hstep) : list string :=
+    let id := u ++ "." ++ nat_to_string vi ++ "." ++ name in
+    let tags := "hist," ++ name ++ "," ++ tags_of (map (fun h => Inner (hs_tag h) "" (fun _ => "") OLoop) hs) in
+    let steps := seps "|" (map hs_text hs) in
+    let fi := Nat.modulo sel 3 in
+    let f := nth fi value_forms "p" in
+    let per := map (fun f => hist_run (hist_store n v f pas) hs) value_forms in
+    [ line (id ++ ".F") ("forms," ++ tags) (u ++ ";all;seqf;" ++ steps ++ ";" ++ value)
+           (seqf_model (hist_store n v "p" pas) per hs) (history_demand (List.length hs));
+      line (id ++ ".P" ++ f) ("pure,f:" ++ f ++ "," ++ tags) (u ++ ";" ++ f ++ ";seq;" ++ steps ++ ";" ++ value)
+           (seq_model (nth fi per [])) "*" ] in
+  (* the partner rotates with the unit as well as with the value *)
+  let us := fold_left (fun a c => a + nat_of_ascii c) (list_ascii_of_string u) 0 in
+  (mk "same" vi (history_same vi n v ends colls) ++ mk "other" (S vi) (history_other (us + vi) n v ends colls pas))%list.
+
+(* the same value with every string key of every map made longer than any other rendered key (an index, a number):
+   a key text of the first Loop that outlives it in the caller's buffer is then wholly covered by the next rendering *)
+Definition long_key (k : val) : val :=
+  match k with
+  | VStr s => VStr (s ++ "-0123456789abcdefghij")
+  | VPtr (Some (VStr s)) => VPtr (Some (VStr (s ++ "-0123456789abcdefghij")))
+  | _ => k
+  end.
+Fixpoint long_keys (v : val) {struct v} : val :=
+  match v with
+  | VStruct fs => VStruct ((fix go (l : list val) : list val := match l with [] => [] | x :: r => long_keys x :: go r end) fs)
+  | VSlice n es e => VSlice n ((fix go (l : list val) : list val := match l with [] => [] | x :: r => long_keys x :: go r end) es) e
+  | VMap n kvs => VMap n ((fix go (l : list (val * val)) : list (val * val) :=
+                             match l with [] => [] | (k, x) :: r => (long_key k, long_keys x) :: go r end) kvs)
+  | VPtr (Some x) => VPtr (Some (long_keys x))
+  | _ => v
+  end.
+
 (* ---------- path selection ---------- *)
 Fixpoint first_per_tag (seen : list string) (ps : list tagged) : list tagged :=
   match ps with
@@ -310,10 +546,11 @@ Definition hostile_lines (u : string) (n : node) (v : val) : list string :=
       pure_line u (u ++ "." ++ f ++ ".other") "nilform,other" "p" value "*" (map (fun x => snd (fst x)) (others f)) ])
     ["np"; "npp"; "nilpp"; "nil"])%list.
 
-Definition case_lines (u : string * ty) : list string :=
+Definition case_lines (pas : list partner) (u : string * ty) : list string :=
   let n := root_node u in
   let vs := variants n in
-  (flat_map (fun iv : nat * val => let '(vi, v) := iv in (path_lines (fst u) n vi v ++ value_lines (fst u) n vs vi v)%list)
+  (flat_map (fun iv : nat * val => let '(vi, v) := iv in
+              (path_lines (fst u) n vi v ++ value_lines (fst u) n vs vi v ++ hist_lines (fst u) n pas vi v)%list)
            (combine (seqn (List.length vs)) vs) ++
   match vs with
   | v0 :: _ =>
@@ -321,8 +558,13 @@ Definition case_lines (u : string * ty) : list string :=
      (* non-finite floats are boundary scalars too: the most populated value with every float replaced by +Inf
         (DeepEqual of an object with itself is then false - in every argument form) *)
      (let vinf := inf_floats (last vs v0) in
-      if val_eqb vinf (last vs v0) then [] else value_lines (fst u) n vs 900 vinf))%list
+      if val_eqb vinf (last vs v0) then [] else value_lines (fst u) n vs 900 vinf) ++
+     (* histories on the most populated value with long string keys *)
+     (let vlong := long_keys (last vs v0) in
+      if val_eqb vlong (last vs v0) then [] else hist_lines (fst u) n pas 901 vlong))%list
   | [] => []
   end)%list.
 
-Definition cases (tier : Z) (seed : Z) : list string := flat_map case_lines (emit_units tier).
+Definition cases (tier : Z) (seed : Z) : list string :=
+  let pas := partners_of (emit_units tier) in
+  flat_map (case_lines pas) (emit_units tier).
